@@ -19,13 +19,14 @@ Sites == {"top", "loop", "block", "macro"}
 HasWith(m) == m \in {"with", "withonly", "withvar", "withvaronly"}
 WithVar(m) == m \in {"withvar", "withvaronly"}
 IsOnly(m) == m \in {"only", "withonly", "withvaronly"}
-OverSpecs == {<<>>, <<"p">>, <<"q">>, <<"p", "q">>, <<"pP">>, <<"pP", "qP">>, <<"pN">>}
+OverSpecs == {<<>>, <<"p">>, <<"q">>, <<"p", "q">>, <<"pP">>, <<"pP", "qP">>, <<"pN">>, <<"pE", "q">>}
   \* xP = override calling parent(); pN = override of p whose body contains a nested block q (which overrides the target's q as well)
 OName(o) == SubSeq(o, 1, 1)
 OPar(o) == Len(o) = 2 /\ SubSeq(o, 2, 2) = "P"
 ONest(o) == Len(o) = 2 /\ SubSeq(o, 2, 2) = "N"
+OEmb(o) == Len(o) = 2 /\ SubSeq(o, 2, 2) = "E"     \* pE = override of p whose body embeds tp again, overriding q there: overrides belong to their own embed
 Complement(ov) == CASE ov = <<>> -> <<"p", "q">> [] ov = <<"p">> -> <<"q">> [] ov = <<"q">> -> <<"pP">>
-                    [] ov = <<"p", "q">> -> <<>> [] ov = <<"pP">> -> <<"qP">> [] ov = <<"pN">> -> <<"q">> [] OTHER -> <<"p">>
+                    [] ov = <<"p", "q">> -> <<>> [] ov = <<"pP">> -> <<"qP">> [] ov = <<"pN">> -> <<"q">> [] ov = <<"pE", "q">> -> <<"pP">> [] OTHER -> <<"p">>
 
 Configs ==
   { [kind |-> "include", mode |-> m, site |-> s, target |-> t, over |-> <<>>, hostp |-> hp, twice |-> tw]
@@ -42,7 +43,8 @@ X(c, ov) ==
               [q \in 1..Len(ov) |-> [name |-> OName(ov[q]),
                                      body |-> <<Text("h" \o OName(ov[q])), PrintS(NameE("w"))>>
                                               \o (IF OPar(ov[q]) THEN <<Text("("), PrintS(CallE("parent", <<>>)), Text(")")>> ELSE <<>>)
-                                              \o (IF ONest(ov[q]) THEN <<Text("["), BlockS("q", <<Text("nq"), PrintS(NameE("w"))>>), Text("]")>> ELSE <<>>)]])
+                                              \o (IF ONest(ov[q]) THEN <<Text("["), BlockS("q", <<Text("nq"), PrintS(NameE("w"))>>), Text("]")>> ELSE <<>>)
+                                              \o (IF OEmb(ov[q]) THEN <<Text("["), EmbedS(StrE("tp"), NoE, FALSE, <<[name |-> "q", body |-> <<Text("iq")>>]>>), Text("]")>> ELSE <<>>)]])
 Constructs(c) == IF c.twice THEN <<X(c, c.over), Text("+"), X(c, Complement(c.over))>> ELSE <<X(c, c.over)>>
 
 Host(c) ==
@@ -80,6 +82,7 @@ NestsQ(ov) == \E q \in 1..Len(ov) : ONest(ov[q])
 Blk(c, ov, b, base) ==      \* block b of the embedded/included target whose own version renders `base`
   IF c.kind = "embed" /\ Has(ov, b)
   THEN "h" \o b \o VW(c) \o (IF ParOf(ov, b) THEN "(" \o base \o ")" ELSE "") \o (IF NestOf(ov, b) THEN "[nq" \o VW(c) \o "]" ELSE "")
+       \o (IF \E q \in 1..Len(ov) : OName(ov[q]) = b /\ OEmb(ov[q]) THEN "[T[tp" \o VA(c) \o "|iq]]" ELSE "")
   ELSE IF c.kind = "embed" /\ b = "q" /\ NestsQ(ov) THEN "nq" \o VW(c)
   ELSE base
 One(c, ov, iter) ==
